@@ -694,7 +694,8 @@ mut("C17", "tags-dropped-when-shape-empty", ("x/exp/schema/internal/parser/marsh
 
 # ---- C15
 mut("C15", "or-merges-capabilities", ("x/exp/schema/validate/typechecker.go", "	return typeBool{}, lCaps.intersect(rCaps), nil\n}\n\nfunc (v *Validator) typeOfNot", "	return typeBool{}, lCaps.merge(rCaps), nil\n}\n\nfunc (v *Validator) typeOfNot"))
-mut("C15", "optional-attr-treated-required", ("x/exp/schema/validate/cedar_type.go", "			required: !attr.Optional,", "			required: !attr.Optional || name == \"score\","))
+mut("C15", "optional-attr-treated-required", ("x/exp/schema/validate/cedar_type.go", "			required: !attr.Optional,", "			required: !attr.Optional || name == \"zip\","))
+mut("C15", "optional-entity-attr-treated-required", ("x/exp/schema/validate/cedar_type.go", "			required: !schemaAttr.Optional,", "			required: !schemaAttr.Optional || attr == \"score\","))
 mut("C15", "comparison-kinds-unchecked", ("x/exp/schema/validate/typechecker.go", "	if len(errs) == 0 && lt != nil && rt != nil && !sameComparableKind(lt, rt) {", "	if false && len(errs) == 0 && lt != nil && rt != nil && !sameComparableKind(lt, rt) {"))
 mut("C15", "has-capability-any-attr", ("x/exp/schema/validate/capability.go", '''func (cs capabilitySet) has(c capability) bool {
 	return cs[c]
